@@ -11,7 +11,7 @@ from harness import router_gen as G
 # int/float/re/path filters, anonymous wildcards, literals of every length between wildcards)
 
 LITS = ['a', 'b', '/', '-', '.', '0', 'é', 'x/', '/a', 'ab', 'a/b', '/a/', 'end', '/end', '.5', '0.', '1', '-x-', 'y',
-        '_', '//', 'a.b/c', ':', '.0', '5']
+        '_', '//', 'a.b/c', ':', '.0', '5', 'static/x', 'abcdefghij', '/v1/items/']
 NAMES = ['x', 'y', 'z', 'id', 'n_1', 'Xé', '_p', 'q', 'p']
 RE_POOL = [r'[a-z]+', r'\d+', r'[^/]+', r'a*', r'a|ab', r'(?:ab)+', r'.*', r'.+', r'[ab]*b', r'\w+', r'é+',
            r'[0-9][0-9]', r'x?', r'[^-]*', r'-?1', r'/+', r'a\)b', r'[^/]*/b', r'[^0]+', r'[a-z]*', r'[0-9.]+']
@@ -42,6 +42,8 @@ FIXED = [
     ('/<q:float>', '0.00001'),
     ('/foo/{:re(to.)}/bar{some.int()}/{other}/end', 'foo/tok/bar5/other/end'),
     ('/<:int>/<:int>-<y>', '5/7-k'),
+    ('/<:int>/<:int>/<:int>/<:int>', '1/2/3/4'),
+    ('/static/files/<a>/<b>/x', 'static/files/p/q/x'),
     ('/<a>/<b>', 'x/y'),
     ('/s', 's'),
     ('/a/<x:int>', 'a/٣'),
@@ -50,9 +52,9 @@ FIXED = [
 ]
 
 
-def gen_wild(rng):
+def gen_wild(rng, anon=.3):
     k = rng.randrange(16)
-    name = None if rng.random() < .3 else rng.choice(NAMES)
+    name = None if rng.random() < anon else rng.choice(NAMES)
     if k < 4:
         return ('w', name, None, None, None)
     if k < 7:
@@ -67,16 +69,17 @@ def gen_wild(rng):
 
 
 def gen_ast(rng):
-    n = rng.choice([1, 2, 2, 3, 3, 4, 5, 6])
+    n = rng.choice([1, 2, 2, 3, 3, 4, 5, 6, 7])
+    anon = rng.choice([.3, .3, .3, 0, .9, 1])      # some rules all anonymous, some all named
     segs = []
     for i in range(n):
         r = rng.random()
         if r < .42:
             segs.append(('lit', rng.choice(LITS)))
         else:
-            segs.append(gen_wild(rng))
+            segs.append(gen_wild(rng, anon))
     if not any(s[0] == 'w' for s in segs) and rng.random() < .9:
-        segs.insert(rng.randint(0, len(segs)), gen_wild(rng))
+        segs.insert(rng.randint(0, len(segs)), gen_wild(rng, anon))
     out = []
     for s in segs:
         if s[0] == 'lit' and out and out[-1][0] == 'lit':
@@ -530,44 +533,60 @@ class Oracle:
                 f'changes what a neighbouring filter matches; resolving the built URL gives {got}: {ctx}')
 
     def classify_assert(self, vals, texts, ctx):
-        """which wildcard made url() raise AssertionError, and why.  The check is re-done here in
-        both forms it has had (value alone, non-empty match; value in front of the following
-        literal, consumed exactly), the first wildcard failing one of them is the site."""
+        """which wildcard made url() raise AssertionError, and why: the sanity check is re-done
+        here in the form the tree under test applies (`sanity_style`), the first wildcard
+        failing it is the site"""
         route, kinds = self.route, self.kinds
-        site = {}
+        style = sanity_style()
         for i, v in enumerate(vals):
             f_in = route.filters[i]
             if not f_in:
                 continue
             try:
                 prt = self.fmt(i, v)
-                alone = bool(f_in(prt)[1])
-                val, pos, _ = f_in(prt + self.runs[i + 1])
-                placed = val is not None and pos == len(prt)
+                if style == 'alone':
+                    ok = bool(f_in(prt)[1])
+                else:
+                    val, pos, _ = f_in(prt + self.runs[i + 1])
+                    ok = val is not None and pos == len(prt)
             except Exception:
                 break
-            if not alone:
-                site.setdefault('alone', (i, prt))
-            if not placed:
-                site.setdefault('placed', (i, prt))
-        if not site:
-            return ('C19:url:assertion-unexplained', f'url() raised AssertionError: {ctx}')
-        i, prt = site.get('alone') or site['placed']
-        v = vals[i]
-        nxt = shape_after(self.ast, i)
-        if isinstance(v, float) and math.isinf(v):
-            return ('C19:url:float-overflow-inf',
-                    f'float wildcard {i} matched a text beyond the double range (value {v!r}); its formatted '
-                    f'text {prt!r} fails the sanity check of url(): {ctx}')
-        if 'alone' in site and texts is not None and texts[i] == '':
-            return ('C19:url:empty-match-filter',
-                    f'wildcard {i} ({kinds[i]}) matched the empty text; url() asserts a non-empty match: {ctx}')
-        if 'alone' in site and kinds[i] == 'path' and nxt == 'lit':
-            return ('C19:url:path-filter-with-suffix',
-                    f'path wildcard {i} followed by a literal: url() checks the value without the literal its '
-                    f'look-ahead needs and raises AssertionError: {ctx}')
-        return (f'C19:url:sanity-check-rejects-{kinds[i]}-before-{nxt}',
-                f'wildcard {i} ({kinds[i]}): url() raised AssertionError on the formatted value {prt!r}: {ctx}')
+            if ok:
+                continue
+            nxt = shape_after(self.ast, i)
+            if isinstance(v, float) and math.isinf(v):
+                return ('C19:url:float-overflow-inf',
+                        f'float wildcard {i} matched a text beyond the double range (value {v!r}); its formatted '
+                        f'text {prt!r} fails the sanity check of url(): {ctx}')
+            if style == 'alone' and texts is not None and texts[i] == '':
+                return ('C19:url:empty-match-filter',
+                        f'wildcard {i} ({kinds[i]}) matched the empty text; url() asserts a non-empty match: {ctx}')
+            if style == 'alone' and kinds[i] == 'path' and nxt == 'lit':
+                return ('C19:url:path-filter-with-suffix',
+                        f'path wildcard {i} followed by a literal: url() checks the value without the literal its '
+                        f'look-ahead needs and raises AssertionError: {ctx}')
+            return (f'C19:url:sanity-check-rejects-{kinds[i]}-before-{nxt}',
+                    f'wildcard {i} ({kinds[i]}): url() raised AssertionError on the formatted value {prt!r}: {ctx}')
+        return ('C19:url:assertion-unexplained', f'url() raised AssertionError: {ctx}')
+
+
+_style = []
+
+
+def sanity_style():
+    """which form of the sanity check the tree under test applies, probed once on the documented
+    `path` rule: 'alone' (value checked standing alone, non-empty match demanded: the form before
+    fix 715005e) or 'placed' (value checked in front of the literal that follows it)"""
+    if not _style:
+        from ombott.router.radirouter import Route
+        try:
+            Route('/a/<x:path>/end').url(x='b/c')
+            _style.append('placed')
+        except AssertionError:
+            _style.append('alone')
+        except Exception:
+            _style.append('placed')
+    return _style[0]
 
 
 # ---------------------------------------------------------------------------------------------
@@ -601,7 +620,7 @@ class C19(Check):
         self.stats = {}
 
     def budget(self, tier, escalated):
-        n = 2500 if tier == 'quick' else 60000
+        n = 6000 if tier == 'quick' else 60000
         return n * (3 if escalated and tier == 'quick' else 1)
 
     def nontrivial(self, sample):
